@@ -38,6 +38,8 @@ IsDoc(v) == v.k = "d"
 CounterVal(x) == [k |-> "i", id |-> 0, len |-> 8, n |-> x]
 DocLen(n) == IF n < 10 THEN 7 ELSE IF n < 100 THEN 8 ELSE 9
 DocVal(x) == [k |-> "d", id |-> 0, len |-> DocLen(x), n |-> x]
+\* a counter document with a padding member: {"n":x,"p":"aaa...a"} (`pad` a's; 7 more bytes of syntax); id = pad
+DocValP(x, pad) == [k |-> "d", id |-> pad, len |-> DocLen(x) + (IF pad = 0 THEN 0 ELSE 7 + pad), n |-> x]
 ValueSizeOK(v) == v.len > 0 /\ v.len <= MaxValueLen
 
 (* ------------------------------- records ------------------------------- *)
@@ -166,9 +168,11 @@ PatchOut(cfg, cur, now, mem, klen, patch, auto, t) ==
   ELSE IF ~IsDoc(cur.val) \/ (patch.test >= 0 /\ patch.test # cur.val.n)
        THEN {Out(Err("JsonPatchError"), cur, auto, TZero)}
   ELSE IF NewKeyBad(cfg, klen) THEN {Out(Err("InvalidKeySize"), cur, auto, TZero)}
-  ELSE IF NoRoom(cfg, mem, Growth(klen, cur, DocVal(patch.set)))
+  \* the RESULT of the patch is a value like any other: the size limit applies to it (only a patch can grow a value)
+  ELSE IF DocValP(patch.set, cur.val.id).len > MaxValueLen THEN {Out(Err("InvalidValueSize"), cur, auto, TZero)}
+  ELSE IF NoRoom(cfg, mem, Growth(klen, cur, DocValP(patch.set, cur.val.id)))
        THEN {Out(Err("OutOfMemory"), cur, auto, TZero)}
-  ELSE {Out(OkUnit, Rec(t, TZero, DocVal(patch.set)), auto, IF auto THEN TZero ELSE t)}
+  ELSE {Out(OkUnit, Rec(t, TZero, DocValP(patch.set, cur.val.id)), auto, IF auto THEN TZero ELSE t)}
 
 (* update_ttl / persist: the expiry is relative to NOW, the value is kept, the version moves
    past the old one; an expired key is not resurrected. *)
